@@ -75,7 +75,157 @@ func Install(vm *goja.Runtime) {
 		}
 		return vm.ToValue(-1)
 	})
+	// Go API issuer of the object internal methods
+	vm.Set("__goGet", func(call goja.FunctionCall) goja.Value {
+		o := call.Argument(0).(*goja.Object)
+		var v goja.Value
+		if s, ok := call.Argument(1).(*goja.Symbol); ok {
+			v = o.GetSymbol(s)
+		} else {
+			v = o.Get(call.Argument(1).String())
+		}
+		if v == nil {
+			return goja.Undefined()
+		}
+		return v
+	})
+	vm.Set("__goSet", func(call goja.FunctionCall) goja.Value {
+		o := call.Argument(0).(*goja.Object)
+		var err error
+		if s, ok := call.Argument(1).(*goja.Symbol); ok {
+			err = o.SetSymbol(s, call.Argument(2))
+		} else {
+			err = o.Set(call.Argument(1).String(), call.Argument(2))
+		}
+		if err != nil {
+			panic(err)
+		}
+		return goja.Undefined()
+	})
+	vm.Set("__goDelete", func(call goja.FunctionCall) goja.Value {
+		o := call.Argument(0).(*goja.Object)
+		var err error
+		if s, ok := call.Argument(1).(*goja.Symbol); ok {
+			err = o.DeleteSymbol(s)
+		} else {
+			err = o.Delete(call.Argument(1).String())
+		}
+		if err != nil {
+			panic(err)
+		}
+		return vm.ToValue(true)
+	})
+	vm.Set("__goProxy", func(call goja.FunctionCall) goja.Value {
+		// a Proxy created through the Go API whose ProxyTrapConfig forwards every trap to the target
+		t := call.Argument(0).(*goja.Object)
+		return vm.ToValue(vm.NewProxy(t, ForwardingTraps(vm)))
+	})
 	vm.Set("__regs", func(call goja.FunctionCall) goja.Value {
 		return vm.ToValue(goja.VerifRegs(vm))
 	})
+}
+
+// ForwardingTraps is a Go ProxyTrapConfig that forwards each trap to the target through the Go API.
+func ForwardingTraps(vm *goja.Runtime) *goja.ProxyTrapConfig {
+	refl := vm.Get("Reflect").ToObject(vm)
+	call := func(name string, args ...goja.Value) goja.Value {
+		f, _ := goja.AssertFunction(refl.Get(name))
+		v, err := f(refl, args...)
+		if err != nil {
+			panic(err)
+		}
+		return v
+	}
+	return &goja.ProxyTrapConfig{
+		GetPrototypeOf: func(t *goja.Object) *goja.Object { return t.Prototype() },
+		SetPrototypeOf: func(t *goja.Object, p *goja.Object) bool {
+			var pv goja.Value = goja.Null()
+			if p != nil {
+				pv = p
+			}
+			return call("setPrototypeOf", t, pv).ToBoolean()
+		},
+		IsExtensible:      func(t *goja.Object) bool { return call("isExtensible", t).ToBoolean() },
+		PreventExtensions: func(t *goja.Object) bool { return call("preventExtensions", t).ToBoolean() },
+		GetOwnPropertyDescriptor: func(t *goja.Object, prop string) goja.PropertyDescriptor {
+			return toDesc(vm, call("getOwnPropertyDescriptor", t, vm.ToValue(prop)))
+		},
+		GetOwnPropertyDescriptorIdx: func(t *goja.Object, prop int) goja.PropertyDescriptor {
+			return toDesc(vm, call("getOwnPropertyDescriptor", t, vm.ToValue(prop)))
+		},
+		GetOwnPropertyDescriptorSym: func(t *goja.Object, prop *goja.Symbol) goja.PropertyDescriptor {
+			return toDesc(vm, call("getOwnPropertyDescriptor", t, prop))
+		},
+		DefineProperty: func(t *goja.Object, key string, d goja.PropertyDescriptor) bool {
+			return call("defineProperty", t, vm.ToValue(key), fromDesc(vm, d)).ToBoolean()
+		},
+		DefinePropertyIdx: func(t *goja.Object, key int, d goja.PropertyDescriptor) bool {
+			return call("defineProperty", t, vm.ToValue(key), fromDesc(vm, d)).ToBoolean()
+		},
+		DefinePropertySym: func(t *goja.Object, key *goja.Symbol, d goja.PropertyDescriptor) bool {
+			return call("defineProperty", t, key, fromDesc(vm, d)).ToBoolean()
+		},
+		Has:    func(t *goja.Object, p string) bool { return call("has", t, vm.ToValue(p)).ToBoolean() },
+		HasIdx: func(t *goja.Object, p int) bool { return call("has", t, vm.ToValue(p)).ToBoolean() },
+		HasSym: func(t *goja.Object, p *goja.Symbol) bool { return call("has", t, p).ToBoolean() },
+		Get: func(t *goja.Object, p string, r goja.Value) goja.Value { return call("get", t, vm.ToValue(p), r) },
+		GetIdx: func(t *goja.Object, p int, r goja.Value) goja.Value { return call("get", t, vm.ToValue(p), r) },
+		GetSym: func(t *goja.Object, p *goja.Symbol, r goja.Value) goja.Value { return call("get", t, p, r) },
+		Set: func(t *goja.Object, p string, v goja.Value, r goja.Value) bool {
+			return call("set", t, vm.ToValue(p), v, r).ToBoolean()
+		},
+		SetIdx: func(t *goja.Object, p int, v goja.Value, r goja.Value) bool {
+			return call("set", t, vm.ToValue(p), v, r).ToBoolean()
+		},
+		SetSym: func(t *goja.Object, p *goja.Symbol, v goja.Value, r goja.Value) bool {
+			return call("set", t, p, v, r).ToBoolean()
+		},
+		DeleteProperty:    func(t *goja.Object, p string) bool { return call("deleteProperty", t, vm.ToValue(p)).ToBoolean() },
+		DeletePropertyIdx: func(t *goja.Object, p int) bool { return call("deleteProperty", t, vm.ToValue(p)).ToBoolean() },
+		DeletePropertySym: func(t *goja.Object, p *goja.Symbol) bool { return call("deleteProperty", t, p).ToBoolean() },
+		OwnKeys: func(t *goja.Object) *goja.Object { return call("ownKeys", t).ToObject(vm) },
+	}
+}
+
+func flag(o *goja.Object, name string) goja.Flag {
+	v := o.Get(name)
+	if v == nil {
+		return goja.FLAG_NOT_SET
+	}
+	if v.ToBoolean() {
+		return goja.FLAG_TRUE
+	}
+	return goja.FLAG_FALSE
+}
+
+func toDesc(vm *goja.Runtime, v goja.Value) goja.PropertyDescriptor {
+	if v == nil || goja.IsUndefined(v) {
+		return goja.PropertyDescriptor{}
+	}
+	o := v.ToObject(vm)
+	d := goja.PropertyDescriptor{Value: o.Get("value"), Getter: o.Get("get"), Setter: o.Get("set"),
+		Writable: flag(o, "writable"), Enumerable: flag(o, "enumerable"), Configurable: flag(o, "configurable")}
+	return d
+}
+
+func fromDesc(vm *goja.Runtime, d goja.PropertyDescriptor) goja.Value {
+	o := vm.NewObject()
+	if d.Value != nil {
+		o.Set("value", d.Value)
+	}
+	if d.Getter != nil {
+		o.Set("get", d.Getter)
+	}
+	if d.Setter != nil {
+		o.Set("set", d.Setter)
+	}
+	for _, f := range []struct {
+		n string
+		f goja.Flag
+	}{{"writable", d.Writable}, {"enumerable", d.Enumerable}, {"configurable", d.Configurable}} {
+		if f.f != goja.FLAG_NOT_SET {
+			o.Set(f.n, f.f == goja.FLAG_TRUE)
+		}
+	}
+	return o
 }
